@@ -362,7 +362,7 @@ class _Run:
                 if s.get("pow") and s["x"]["t"] in ("int", "float") and float(s["x"]["v"]) > 0:
                     # the exponent in the registry's own numeric type (a Fraction exponent inside a float
                     # registry is not something the registry itself would produce)
-                    T = {"float": float, "Fraction": Fraction, "Decimal": Decimal}[self.case.get("knobs", {}).get("numtype", "float")]
+                    T = obj._REGISTRY.non_int_type  # the lazy / application registry is a float registry
                     e = Fraction(s["pow"])
                     obj = obj ** (e if T is Fraction else (float(e) if T is float else Decimal(e.numerator) / Decimal(e.denominator)))
             elif kind == "u":
